@@ -230,6 +230,8 @@ theorem us_varDefinition (E : ∀ Γ fuel, UseIH Γ fuel) (Γ : List Var) (fuel 
       · exact PostOk.errBind
       po_if
       · exact PostOk.errBind
+      po_if
+      · exact PostOk.errBind
       · exact key2 ()
     · po_if
       · exact PostOk.errBind
